@@ -303,7 +303,8 @@ Section Built.
     - (* dv_link *)
       intros c p Hp. rewrite b_parent in Hp.
       destruct (Hedge c p Hp) as (sc & Hin & Hcs & Hps).
-      destruct (pt_valid_scope_chain_l g t V sc Hin (Hne sc Hin)) as (a & Ha & Hlow).
+      assert (Hnz : sc <> []) by (intros ->; destruct Hcs).
+      destruct (pt_valid_scope_chain_l g t V sc Hin Hnz) as (a & Ha & Hlow).
       destruct (In_nth_error _ _ Hin) as (n & Hn).
       assert (Hsc : scope_of g (Z.of_nat n) = Some sc).
       { unfold scope_of. destruct (Z.of_nat n <? 0) eqn:L; [lia|]. rewrite Nat2Z.id. exact Hn. }
@@ -402,7 +403,7 @@ Section EndToEnd.
 
   Theorem built_valid_l : dpop_valid (dpop_of_built R t).
   Proof.
-    apply (built_dvalid_l R t e_valid e_edge e_scv e_ne e_dom).
+    apply (built_dvalid_l R t e_valid e_edge e_scv e_dom).
   Qed.
 
   Theorem built_partition_l :
